@@ -94,6 +94,12 @@ def fixed_strings():
                 for body in (['>>> x = ('], ['>>> def f() return 1'], ['>>> print(1)', '1', '>>> y = ['], [">>> s = '''abc"], ['>>> print(1)', '1'],
                              ['>>> if True:', '>>> pass']):
                     out.append(intro + '\n'.join(pad + (ws + l if l.startswith('>>>') else l) for l in body) + '\n')
+    # lines that hold nothing but white space, a lot of it (trailing indentation left by an editor, a pasted table row): with and without
+    # other white-space characters behind the blanks
+    for nblank in (24, 40, 64, 200):
+        for tail in ('', '\r', '\x0b', '\xa0', '\t '):
+            out.append('Intro.\n' + ' ' * nblank + tail + '\n    >>> print(1)\n    1\n')
+            out.append('    >>> x = (\n' + ' ' * nblank + tail + '\n    text\n')
     # a broken statement on a SHORT prompt line directly below the want of a deeply indented example (no empty line between them)
     for depth in (5, 6, 7, 8, 12, 16):
         for broken in ('>>> (', '>>> x=(', '>>> [1,', ">>> '''", '>>> f(]'):
